@@ -42,6 +42,19 @@ func VerifReadAPI() {
 			hit = i
 		}
 	}
+	if rt.Param("getfaults", 0) == 1 {
+		// a storage read that fails while the witness does hold a checkpoint is not "holds none"
+		rt.ResetEvents()
+		rt.DBFaults = true
+		frec := verifGet(s, id)
+		rt.DBFaults = false
+		if rt.Count("dbfault") > 0 && hit >= 0 && wd.Stored[hit] {
+			st := verifStatus(frec)
+			rt.Assert(st != 404, "C16/read-fault-is-not-404")
+			rt.Assert(st != 200 || rt.Eq(frec.Body, wd.Prev[hit]), "C16/read-fault-never-serves-other-bytes")
+			rt.Cover(true, "http/read-fault")
+		}
+	}
 	rec := verifGet(s, id)
 	rt.Assert(rec.WroteHeaders <= 1, "C16/at-most-one-status")
 	if hit >= 0 && wd.Stored[hit] {
